@@ -1,7 +1,19 @@
 import CpModel.SessionLock
+import CpProofs.C13Inv
+import CpProofs.C13NoSweep
 /-!
   C13 — session access is mutually exclusive and the lock is always released.
-  (work in progress: witnesses first)
+
+  Part (a): `RamSession` (threads) over `CpModel.SessionLock`.  All statements quantify over ANY
+  number of request threads (`Nat`-indexed), ANY schedule of request / sweeper / clock steps and
+  every initial cache / lock-table state.
+
+  * `Variant.orig`   = `acquire_lock` as in the unrepaired tree (`setdefault(...).acquire()`):
+      `C13_mutex_no_sweep` holds, `C13_mutex_full .orig` is FALSE (finding F20, witness by
+      `decide`), with the further manifestations `C13_release_error_orig`,
+      `C13_blocked_forever_orig`, `C13_lost_update_orig`.
+  * `Variant.recheck` = the repaired protocol (proposed fix): `C13_mutex_full_recheck`,
+      `C13_no_lost_update`, `C13_no_release_error`, `C13_released_ram`, `C13_no_deadlock`.
 -/
 namespace CpProofs.C13
 open CpModel.SessionLock
@@ -15,6 +27,33 @@ def MutexAt (s : St) : Prop :=
 def C13_mutex_full (v : Variant) : Prop :=
   ∀ (c : Option (Nat × Nat)) (tbl : Bool) (sched : List Actor), MutexAt (run v (init c tbl) sched)
 
+/-! ### the unrepaired protocol -/
+
+/-- Without sweeper steps the unrepaired protocol (and the repaired one) is mutually exclusive,
+    for any number of threads and any schedule. -/
+theorem C13_mutex_no_sweep (v : Variant) (c : Option (Nat × Nat)) (tbl : Bool) (sched : List Actor)
+    (hs : NoSweep sched) : MutexAt (run v (init c tbl) sched) := by
+  have h := invNS_run v _ sched hs (invNS_init c tbl 0)
+  intro i j hi hj
+  have a1 := h.k1 i (holds_afterSetdef _ (inCS_holds _ hi))
+  have a2 := h.k1 j (holds_afterSetdef _ (inCS_holds _ hj))
+  have b1 := h.k2 i (inCS_holds _ hi)
+  have b2 := h.k2 j (inCS_holds _ hj)
+  rw [a1] at a2
+  injection a2 with a2
+  rw [a2, b2] at b1
+  injection b1 with b1
+  injection b1 with b1
+  exact b1.symm
+
+/-- non-vacuity: a schedule without sweeper steps in which two threads contend -/
+example : NoSweep [.req 0, .req 1, .req 0, .req 1, .req 0, .req 1, .tick 3] ∧
+    inCS ((run .orig (init (some (5, 100)) false)
+      [.req 0, .req 1, .req 0, .req 1, .req 0, .req 1, .tick 3]).thr 0).pc = true := by
+  constructor
+  · unfold NoSweep; decide
+  · decide
+
 /-- F20: the schedule `T0.init; T1.init; T0.setdefault; S.copy; S.del; S.get; S.tryAcquire; S.pop;
     S.release; T0.acquire; T1.setdefault; T1.acquire` on an expired session. -/
 def f20Witness : List Actor :=
@@ -24,5 +63,102 @@ theorem C13_mutex_full_orig_false : ¬ C13_mutex_full .orig := by
   intro h
   have := h (some (5, 0)) false f20Witness 0 1 (by decide) (by decide)
   exact absurd this (by decide)
+
+/-- ... continuing the witness: both read-modify-writes go through and one update is lost. -/
+theorem C13_lost_update_orig :
+    (run .orig (init (some (5, 0)) false)
+      (f20Witness ++ [.req 0, .req 1, .req 0, .req 1])).lost = true := by decide
+
+/-- ... and thread 0's `release_lock` ends in RuntimeError (it releases thread 1's lock object),
+    leaving its own lock object owned for ever. -/
+theorem C13_release_error_orig :
+    let s := run .orig (init (some (5, 0)) false)
+      (f20Witness ++ [.req 0, .req 0, .req 0, .req 0, .req 0])
+    (s.thr 0).pc = .crashed ∧ (s.heap 0).owner = some (.req 0) := by decide
+
+/-- Second manifestation: both threads looked the SAME lock object up, the sweep discards it,
+    thread 0 acquires the orphan and its `release_lock` raises KeyError; thread 1 is then blocked on
+    a lock object whose owner has terminated. -/
+theorem C13_blocked_forever_orig :
+    let s := run .orig (init (some (5, 0)) false)
+      [.req 0, .req 1, .req 0, .req 1, .sweep, .sweep, .sweep, .sweep, .sweep, .sweep,
+       .req 0, .req 0, .req 0, .req 0, .req 0]
+    (s.thr 0).pc = .crashed ∧ (s.thr 1).pc = .acq ∧ enabled s (.req 1) = false ∧
+    (s.heap (s.thr 1).my).owner = some (.req 0) := by decide
+
+/-! ### the repaired protocol -/
+
+theorem mutex_of_inv {s : St} (h : Inv s) : MutexAt s := by
+  intro i j hi hj
+  have a1 := h.i2 i hi
+  have a2 := h.i2 j hj
+  have b1 := h.i1 i (inCS_holds _ hi)
+  have b2 := h.i1 j (inCS_holds _ hj)
+  rw [a1] at a2
+  injection a2 with a2
+  rw [a2, b2] at b1
+  injection b1 with b1
+  injection b1 with b1
+  injection b1 with b1
+  exact b1.symm
+
+theorem reachable_inv (c : Option (Nat × Nat)) (tbl : Bool) (sched : List Actor) :
+    Inv (run .recheck (init c tbl) sched) :=
+  inv_run _ sched (inv_init c tbl 0)
+
+/-- Mutual exclusion at full strength for the repaired protocol. -/
+theorem C13_mutex_full_recheck : C13_mutex_full .recheck :=
+  fun c tbl sched => mutex_of_inv (reachable_inv c tbl sched)
+
+/-- No handler write is ever based on a read that another write has overtaken. -/
+theorem C13_no_lost_update (c : Option (Nat × Nat)) (tbl : Bool) (sched : List Actor) :
+    (run .recheck (init c tbl) sched).lost = false :=
+  (reachable_inv c tbl sched).l1
+
+/-- `release_lock` never fails (no KeyError, no RuntimeError) and `clean_up` never raises. -/
+theorem C13_no_release_error (c : Option (Nat × Nat)) (tbl : Bool) (sched : List Actor) :
+    (∀ i, ((run .recheck (init c tbl) sched).thr i).pc ≠ .crashed) ∧
+    (run .recheck (init c tbl) sched).sw.pc ≠ .crashed :=
+  ⟨(reachable_inv c tbl sched).c1, (reachable_inv c tbl sched).c2⟩
+
+/-- The lock is released: a lock object is owned by request `i` only while `i` is between its
+    acquisition and its release; a request that is finished (or has not acquired yet) owns none. -/
+theorem C13_released_ram (c : Option (Nat × Nat)) (tbl : Bool) (sched : List Actor) (l i : Nat)
+    (hfin : holds ((run .recheck (init c tbl) sched).thr i).pc = false) :
+    ((run .recheck (init c tbl) sched).heap l).owner ≠ some (.req i) := by
+  intro h
+  have := ((reachable_inv c tbl sched).i4 l i h).1
+  rw [hfin] at this
+  cases this
+
+/-- A request blocked in `acquire` waits for an actor that is itself not blocked: either another
+    request inside its locked region (whose every step is enabled) or the sweeper between its
+    non-blocking acquire and its release.  So no reachable state is a deadlock. -/
+theorem C13_no_deadlock (c : Option (Nat × Nat)) (tbl : Bool) (sched : List Actor) (i : Nat) :
+    let s := run .recheck (init c tbl) sched
+    (s.thr i).pc = .acq → enabled s (.req i) = false →
+    (∃ j, holds (s.thr j).pc = true ∧ enabled s (.req j) = true) ∨
+    (s.sw.pc = .pop ∨ s.sw.pc = .rel) := by
+  intro s hpc hen
+  have hinv : Inv s := reachable_inv c tbl sched
+  simp only [enabled, hpc] at hen
+  cases htry : tryAcquire s (s.thr i).my (.req i) with
+  | some s' => simp [htry] at hen
+  | none =>
+    obtain ⟨h1, h2⟩ := tryAcquire_none htry
+    cases ho : (s.heap (s.thr i).my).owner with
+    | none => exact absurd ho h1
+    | some a =>
+      cases a with
+      | req j =>
+        left
+        have hj := (hinv.i4 _ j ho).1
+        refine ⟨j, hj, ?_⟩
+        simp only [enabled]
+        cases hp : (s.thr j).pc <;> simp_all [holds]
+      | sweep => right; exact (hinv.s4 _ ho).1
+      | tick d =>
+        exfalso
+        exact hinv.s7 _ d ho
 
 end CpProofs.C13
